@@ -217,7 +217,7 @@ Section Dur.
   Definition quiet (l : label) : bool :=
     match l with
     | LSchemaFlush _ | LFlushAllExtract _ | LAgeExtract _ | LDequeue | LCloseBegin | LCloseWait | LCloseDrain | LCloseExtract _ | LCloseEnd
-    | LRotate | LAgeFile _ | LReplayStart _ | LResetFlag => true
+    | LRotate | LAgeFile _ | LReplayStart _ | LReplayFileKeep _ _ | LResetFlag => true
     | _ => false
     end.
 
@@ -369,6 +369,10 @@ Section Dur.
     - (* LReplayFileDone *)
       split; intros; cbn [f_added f_acc f_waladd f_moved f_part f_part_stored f_drop f_waldel]; rw_ctx; proj; cbn [count_occ accepted next_id set_wal length]; rewrite ?app_nil_r; try lia; try reflexivity.
       rewrite w_wal, w_def. rw_ctx. cbn [flat_map snd]. rewrite ?count_occ_app. lia.
+    - (* LReplayFileKeep *)
+      apply dframe_quiet; try reflexivity.
+      intros x. rewrite w_wal, w_def. rw_ctx. cbn [flat_map snd]. rewrite flat_map_app, !count_occ_app. cbn [flat_map w_entries]. rewrite !count_occ_app.
+      rewrite <- (firstn_skipn i (wal_files s)) at 3. rewrite flat_map_app, count_occ_app. lia.
     - (* LResetFlag *) apply dframe_quiet; reflexivity.
     - (* LRestart *)
       split; intros; cbn [f_added f_acc f_waladd f_moved f_part f_part_stored f_drop f_waldel]; proj; rewrite ?sf_out, ?sa_out, ?d_out, ?vol_vol;
@@ -539,6 +543,7 @@ Section Dur3.
     - left. unfold Protocol.extract in H. destruct (lookup keqb k (buffers s)) as [[? ?]|]; [|discriminate]. inversion H; reflexivity.
     - right. left. eexists. reflexivity.
     - right. right. left. destruct (append_wal keqb seqb sigf nrows _ _ _ _ E2) as [_ [_ [W3 _]]]. do 4 eexists. split; [reflexivity|]. cbn. reflexivity.
+    - right. right. right. left. do 2 eexists. split; reflexivity.
     - right. right. right. left. do 2 eexists. split; reflexivity.
     - right. right. right. right. reflexivity.
   Qed.
@@ -717,5 +722,15 @@ Section Dur3.
     - inversion Hrun; subst; exact Hr.
     - destruct Hg as [Hb [Hn Hg]]. destruct (step cfg s l) as [s1|] eqn:Es; [|contradiction].
       eapply IH; [|exact Hg|exact Hrun]. econstructor; eassumption.
+  Qed.
+  (* a run without WAL replay satisfies [noredo] trivially *)
+  Lemma run_reachO cfg : forall ls s s', reachO cfg s -> forallb (@no_replay K B) ls = true ->
+    Protocol.run keqb seqb sigf nrows flushf cfg s ls = Some s' -> reachO cfg s'.
+  Proof.
+    induction ls as [|l r IH]; intros s s' Hr Hq Hrun; cbn in *.
+    - inversion Hrun; subst; exact Hr.
+    - apply andb_true_iff in Hq. destruct Hq as [Hl Hq]. destruct (step cfg s l) as [s1|] eqn:Es; [|discriminate].
+      eapply IH; [|exact Hq|exact Hrun]. econstructor; [exact Hr| |exact Es].
+      intros E. subst l. discriminate Hl.
   Qed.
 End Dur3.
